@@ -41,7 +41,9 @@ type vfFakeReceiver struct {
 
 func (r *vfFakeReceiver) GetTargetShardID() history.ClusterShardID { return r.tgt }
 func (r *vfFakeReceiver) GetSourceShardID() history.ClusterShardID { return r.src }
-func (r *vfFakeReceiver) NotifyNewTargetShard(t history.ClusterShardID) { r.notified = append(r.notified, t) }
+func (r *vfFakeReceiver) NotifyNewTargetShard(t history.ClusterShardID) {
+	r.notified = append(r.notified, t)
+}
 func (r *vfFakeReceiver) GetLastWatermark() *replicationv1.WorkflowReplicationMessages { return nil }
 
 func vfGuard(s *vrt.Sched, name string, panics *[]string, f func()) {
@@ -265,24 +267,32 @@ func vfAllEnd() func(s *vrt.Sched) (string, string, string) {
 	}
 }
 
+func vfC08Scenarios() map[string]func(s *vrt.Sched) (string, string, string) {
+	return map[string]func(s *vrt.Sched) (string, string, string){
+		"sender-overlap":            vfSenderOverlap(false),
+		"sender-three-incarnations": vfSenderOverlap(true),
+		"receiver-overlap":          vfReceiverOverlap(),
+		"all-streams-end":           vfAllEnd(),
+	}
+}
+
 type vfC08Replay struct {
 	Scenario string `json:"scenario"`
 	Choices  []int  `json:"choices"`
 }
 
 func TestVerifC08(t *testing.T) {
+	if vrt.IsWorker() {
+		vrt.ServeShards(t, vfC08Scenarios())
+		return
+	}
 	res := vrt.NewResult("C08", "model_checking")
 	defer func() {
 		if err := res.Write(); err != nil {
 			t.Fatal(err)
 		}
 	}()
-	scenarios := map[string]func(s *vrt.Sched) (string, string, string){
-		"sender-overlap":          vfSenderOverlap(false),
-		"sender-three-incarnations": vfSenderOverlap(true),
-		"receiver-overlap":        vfReceiverOverlap(),
-		"all-streams-end":         vfAllEnd(),
-	}
+	scenarios := vfC08Scenarios()
 	if p := vrt.ReplayPath(); p != "" {
 		var rp vfC08Replay
 		raw, _ := os.ReadFile(p)
@@ -299,6 +309,7 @@ func TestVerifC08(t *testing.T) {
 		bound = 3
 	}
 	deadline := vrt.Deadline()
+	pool := vrt.NewPool("TestVerifC08", vrt.Workers(), 10*time.Minute)
 	var states, transitions int64
 	exhaustive := true
 	names := make([]string, 0, len(scenarios))
@@ -317,19 +328,15 @@ func TestVerifC08(t *testing.T) {
 			res.Set("nondeterministic_"+name, true)
 			exhaustive = false
 		}
+		st, viols := vrt.ExploreSharded(t, pool, name, bound, 2000, deadline, body)
 		perSig := map[string]int{}
-		st := vrt.Explore(t, bound, 2000, deadline, body, func(ex vrt.Execution, choices []int) {
-			perSig[ex.Signature]++
-			if perSig[ex.Signature] > 3 {
-				return
+		for _, v := range viols {
+			perSig[v.Signature]++
+			if perSig[v.Signature] > 3 {
+				continue
 			}
-			// a violation is only reported if its schedule reproduces
-			again := vrt.RunSchedule(t, choices, 2000, body)
-			if again.Signature != ex.Signature {
-				return
-			}
-			res.Violate(name+"/"+ex.Signature, fmt.Sprintf("scenario %s, schedule %v: %s\nschedule:\n  %s", name, choices, ex.Violation, strings.Join(ex.Trace, "\n  ")), vfC08Replay{name, choices})
-		})
+			res.Violate(name+"/"+v.Signature, fmt.Sprintf("scenario %s, schedule %v: %s\nschedule:\n  %s", name, v.Choices, v.Detail, strings.Join(v.Trace, "\n  ")), vfC08Replay{name, v.Choices})
+		}
 		states += st.Executions
 		for _, c := range st.Outcomes {
 			transitions += c
